@@ -154,11 +154,14 @@ def subset(from_table: {str: int}, name: str, parents: [int] = None) -> {}:
     result = {}
     if parents:
         for parent in parents:
+            # the exact name with this parent in any version, not names that
+            # merely start with it
             surname = construct(name, parent)
             result.update(
                 dict(
                     filter(
-                        lambda t, sn=surname: t[0].startswith(sn),
+                        lambda t, sn=surname: t[0] == sn
+                        or t[0].startswith(sn + '___version:'),
                         from_table.items(),
                     )
                 )
